@@ -5,3 +5,5 @@ package main
 const dagControlled = false
 
 func setDagOrder(f func(n int) []int) {}
+
+func setFileOrder(f func(n int) []int) {}
